@@ -26,7 +26,14 @@ Round 6: optional case key "names" = {"etc": parent name, "dirs": [current, lega
 (or their parent) carry generated names with characters special to glob / fnmatch / regex / formatting / shells,
 blanks, non-ASCII text (all three sub-checks).  client_runs: the model of "a new identifier was requested" follows
 what the stub service answered (a status check that got no answer / a confirmation does not drop the identifier),
-and every history ends with one more plain client run that asks for the identifier."""
+and every history ends with one more plain client run that asks for the identifier.
+
+Round 7: the identifier file as other tools leave it.  Optional idfile keys "pre" / "post" (white space around the
+identifier: LF, CRLF, CR, blanks, tabs, form feed, vertical tab), "bom" (UTF-8 byte-order mark), more spellings
+("mixed", "odd-hyphens", "braces", "urn"); the file is written in binary mode.  One reference (`file_uuid`) says whether
+a content is an identifier; `is_canonical` is the only test of "is a canonical UUID" (it never raises).  On content
+that is not an identifier (`history` only) the documented sys.exit is tolerated - if something is returned it must
+be canonical.  Finite sub-check id_forms: every spelling x white space before x after."""
 import os
 import re
 import shutil
@@ -71,7 +78,14 @@ RULE = ("initial state: per configuration directory (current, legacy) absent/pre
         "run asking for the identifier (when one is established); 'no answer' (unreachable / error / unparsable) is "
         "as frequent as each plain answer; non-trivial also: a status check (or the check inside a legacy "
         "registration) that the service confirmed / did not answer on a host with an established identifier but "
-        "no .registered marker in the current directory (a host that so far only ran offline).")
+        "no .registered marker in the current directory (a host that so far only ran offline). Round 7: the "
+        "identifier file holds the UUID in one of 10 spellings (canonical / upper / mixed case / un-hyphenated / "
+        "un-hyphenated upper / hyphens at other positions / in braces / as urn:uuid: / with a newline), in 2 cases of "
+        "5 followed and in 1 of 8 preceded by white space (LF, CRLF, CR, blank, tab, FF, VT, 1-3 characters; weights "
+        "favour one LF / one CRLF); `history` also draws a UTF-8 BOM (1 in 20) and white-space-only files, where a "
+        "read may end in the documented exit; id_forms enumerates 10 spellings x 6 prefixes x 12 suffixes x {v4, v1} "
+        "followed by read, read, regen, read. Non-trivial also: a read of a valid identifier file that is not in the "
+        "client's own spelling.")
 ASSUMPTIONS = [
     "constants.registered_files / unregistered_files / machine_id_file are redirected to a temp dir and "
     "generate_machine_id is called with destination_file=<temp>/machine-id (its default is bound at import)",
@@ -105,6 +119,11 @@ ASSUMPTIONS = [
     "check, client.get_machine_id() is called right away - a plain call - and its result compared; every history "
     "ends with one more plain client run asking for the identifier). Unregistration (handle_unregistration) stays "
     "a request to drop the identity whatever the service says",
+    "round 7: 'a canonical UUID' = a str equal to str(uuid.UUID(it)) (lower case, hyphens 8-4-4-4-12, nothing "
+    "before or after it); 'the identifier file holds an identifier' = its text (UTF-8, universal newlines) without "
+    "surrounding white space is accepted by uuid.UUID - for such a file a read must return (no exit), return the "
+    "canonical form, and leave bytes / inode / mtime alone; for any other non-empty content nothing is demanded "
+    "unless a value is returned (then it must be canonical)",
     "directory names (round 6): any path component legal on the file system (no '/', no NUL, not '.' / '..', "
     "<= 200 bytes, UTF-8 encodable); the statement speaks of 'a configuration directory' without restricting its name",
     "client_runs, injected faults: an operation that ends with an OSError of the code under test while a fault "
@@ -123,7 +142,11 @@ ASSUMPTIONS = [
 EXCLUDED = [
     "identifier operations while the current configuration directory is absent (nothing can be persisted; "
     "the installer creates the directory - implicit precondition of every caller)",
-    "invalid identifier file content (documented sys.exit) and identifier files that are symlinks/directories",
+    "invalid identifier file content (documented sys.exit) and identifier files that are symlinks/directories; "
+    "round 7: `history` draws two classes of invalid content (UTF-8 BOM in front, white space only) and demands "
+    "nothing when the read returns nothing; client_runs draws valid content only (every client-level operation "
+    "would end in that exit); identifier files that are not UTF-8 / white space outside ASCII (NEL, NBSP, U+2028: "
+    "what the client reads depends on the locale encoding)",
     "a directory sitting at a marker path; in `history`/`first_steps` symlinks are planted in the initial "
     "state only (client_runs also plants them in mid-history)",
     "client_runs: legacy upload (runs file(1) / libmagic on the archive, writes no marker), an unreachable "
@@ -142,10 +165,82 @@ FORMS = ["canonical", "upper", "nohyphen", "nohyphen-upper", "newline", "nohyphe
 OLD = 1000000000  # fixed mtime/atime (2001) planted before every read
 
 
+# round 7: more spellings of one UUID that other tools leave behind and that the client accepts (uuid.UUID parses
+# them): mixed case, hyphens at other positions, a GUID in braces, an URN
+FORMS_R7 = ["mixed", "odd-hyphens", "braces", "urn"]
+# white space that may surround the identifier in the file (optional idfile keys "pre" / "post"): what `echo`, an
+# editor, a template engine or a copy from a Windows host leave - LF, CRLF, CR, blank, tab, form feed, vertical tab
+WS_NAMES = {"\n": "LF", "\r": "CR", " ": "blank", "\t": "tab", "\x0c": "FF", "\x0b": "VT"}
+BOM = b"\xef\xbb\xbf"
+
+
 def render_id(hex32, form):
     c = str(uuid.UUID(hex32))
-    return {"canonical": c, "upper": c.upper(), "nohyphen": hex32.lower(), "nohyphen-upper": hex32.upper(),
-            "newline": c + "\n", "nohyphen-newline": hex32.lower() + "\n", "empty": ""}[form]
+    h = hex32.lower()
+    if form == "mixed":
+        return "".join(ch.upper() if i % 2 == 0 else ch for i, ch in enumerate(c))
+    if form == "odd-hyphens":
+        return "-".join([h[:12], h[12:16], h[16:20], h[20:24], h[24:]])
+    if form == "braces":
+        return "{" + c + "}"
+    if form == "urn":
+        return "urn:uuid:" + c
+    return {"canonical": c, "upper": c.upper(), "nohyphen": h, "nohyphen-upper": hex32.upper(),
+            "newline": c + "\n", "nohyphen-newline": h + "\n", "empty": ""}[form]
+
+
+def id_bytes(idf):
+    """content of the initial identifier file: [BOM] pre + <the UUID in the given spelling> + post"""
+    text = (idf.get("pre") or "") + render_id(idf["hex"], idf["form"]) + (idf.get("post") or "")
+    return (BOM if idf.get("bom") else b"") + text.encode("utf-8")
+
+
+def file_uuid(raw):
+    """reference for 'the identifier file holds a valid identifier': read as text (universal newlines), surrounding
+    white space dropped, parsed by uuid.UUID - the canonical form, or None (absent / empty / invalid content)"""
+    if not raw:
+        return None
+    try:
+        text = raw.decode("utf-8").replace("\r\n", "\n").replace("\r", "\n").strip()
+        return str(uuid.UUID(text))
+    except ValueError:      # (UnicodeDecodeError is a ValueError)
+        return None
+
+
+def is_canonical(x):
+    """x is a canonical UUID: a str equal to the lower-case hyphenated 8-4-4-4-12 rendering of the UUID it spells"""
+    if not isinstance(x, str):
+        return False
+    try:
+        return x == str(uuid.UUID(x))
+    except ValueError:
+        return False
+
+
+def initial_id(idf):
+    """the identifier of a system whose identifier file was generated from `idf`: canonical form of a valid
+    version-4 content (for other versions the client forces the version bits: only form and stability are demanded)"""
+    if not idf or not is_v4(idf["hex"]):
+        return None
+    return file_uuid(id_bytes(idf))
+
+
+def idfile_labels(idf):
+    if not idf:
+        return ["id-init:absent"]
+    valid = file_uuid(id_bytes(idf)) is not None
+    out = ["id-init:" + idf["form"] + ("" if idf["form"] == "empty" or is_v4(idf["hex"]) else ":non-v4")]
+    for key in ("pre", "post"):
+        s = idf.get(key) or ""
+        if s:
+            parts = [WS_NAMES.get(ch, "other") for ch in s.replace("\r\n", "\1")]
+            parts = ["CRLF" if p == "other" else p for p in parts]
+            out.append("id-%s:%s" % (key, "+".join(parts) if len(parts) <= 2 else "3-or-more"))
+    if idf.get("bom"):
+        out.append("id-init:BOM")
+    if idf["form"] != "empty" or idf.get("pre") or idf.get("post") or idf.get("bom"):
+        out.append("id-init:content-" + ("valid" if valid else "invalid"))
+    return out
 
 
 def is_v4(hex32):
@@ -158,6 +253,19 @@ def selftest():
     assert render_id(h, "canonical") == "dc194312-e9a1-47e5-a8b7-d1b9f3c2a1d0"
     assert render_id(h, "nohyphen-upper") == h.upper() and render_id(h, "newline").endswith("d0\n")
     assert str(uuid.UUID(render_id(h, "upper").strip())) == render_id(h, "canonical")
+    c = render_id(h, "canonical")
+    assert is_canonical(c) and not is_canonical(c + "\n") and not is_canonical(c.upper()) and not is_canonical(h)
+    assert not is_canonical("{" + c + "}") and not is_canonical("urn:uuid:" + c) and not is_canonical(None)
+    assert not is_canonical(" " + c) and not is_canonical(render_id(h, "odd-hyphens")) and not is_canonical("")
+    for form in FORMS[:-1] + FORMS_R7:
+        for pre, post in (("", ""), ("", "\r\n"), (" \t", "\n\n"), ("\x0c", "\r"), ("\n", " \x0b")):
+            idf = {"hex": h, "form": form, "pre": pre, "post": post}
+            assert file_uuid(id_bytes(idf)) == c == initial_id(idf), (form, pre, post)
+    assert file_uuid(id_bytes({"hex": h, "form": "canonical", "bom": True})) is None      # U+FEFF is not white space
+    assert file_uuid(b"") is None and file_uuid(b"\n") is None and file_uuid(None) is None
+    assert file_uuid(id_bytes({"hex": h, "form": "empty", "post": "\n"})) is None
+    assert initial_id({"hex": "dc194312e9a117e5a8b7d1b9f3c2a1d0", "form": "canonical"}) is None
+    assert "id-post:CRLF" in idfile_labels({"hex": h, "form": "upper", "post": "\r\n"})
     assert name_labels({}) == ["names:default"] and dir_names({"names": None}) == DEFAULT_NAMES
     lab = name_labels({"names": {"etc": "etc", "dirs": ["conf[staging]", "my conf*"]}})
     assert "names:glob-pattern-not-matching-itself" in lab and "names:blank" in lab and "names:shell-special" in lab
@@ -227,7 +335,14 @@ def _tmpbase():
 
 class _Sandbox(object):
     def __init__(self, case):
-        self.tmp = _LIVE["tmp"] = os.path.realpath(tempfile.mkdtemp(prefix="c17-", dir=_tmpbase()))
+        import signal
+        # (SIGTERM held back between creating the directory and noting it for _on_terminate: a worker stopped in
+        # that window left an empty c17-* directory behind - seen once in round 7)
+        held = signal.pthread_sigmask(signal.SIG_BLOCK, {signal.SIGTERM})
+        try:
+            self.tmp = _LIVE["tmp"] = os.path.realpath(tempfile.mkdtemp(prefix="c17-", dir=_tmpbase()))
+        finally:
+            signal.pthread_sigmask(signal.SIG_SETMASK, held)
         # round 6: the names of the configuration directories (and of their parent) come from the case - any
         # legal path component, also one with characters special to glob / fnmatch / regex / shells / % formatting
         etc_name, names = dir_names(case)
@@ -248,8 +363,8 @@ class _Sandbox(object):
                 self._put(path, d.get(name, "absent"), "%d_%s" % (i, name))
         idf = case.get("idfile")
         if idf and case["dirs"][0].get("present", True):
-            with open(self.idfile, "w") as f:
-                f.write(render_id(idf["hex"], idf["form"]))
+            with open(self.idfile, "wb") as f:     # binary: CR / CRLF / BOM reach the disk as generated
+                f.write(id_bytes(idf))
 
     def _put(self, path, kind, tag):
         """create the marker `path` as `kind`; symlink targets live under <tmp>/targets and are remembered"""
@@ -405,15 +520,12 @@ def check(case):
 
         dir0 = case["dirs"][0].get("present", True)
         idf = case.get("idfile") if dir0 else None
-        expect_id = None           # identifier every read must return (None: not yet determined)
-        if idf and idf["form"] != "empty" and is_v4(idf["hex"]):
-            expect_id = str(uuid.UUID(idf["hex"]))
+        expect_id = initial_id(idf)   # identifier every read must return (None: not yet determined)
         seen_ids = set()
-        labels = set()
-        if idf:
-            labels.add("id-init:" + idf["form"] + ("" if idf["form"] == "empty" or is_v4(idf["hex"]) else ":non-v4"))
-        else:
-            labels.add("id-init:absent")
+        labels = set(idfile_labels(idf))
+        padded = bool(idf and (idf.get("pre") or idf.get("post") or idf["form"] in FORMS_R7
+                               or "newline" in idf["form"]) and file_uuid(id_bytes(idf)))
+        padded_read = False
         for i, d in enumerate(case["dirs"]):
             if not d.get("present", True):
                 labels.add("dir%d-absent" % i)
@@ -438,27 +550,44 @@ def check(case):
                     continue
                 set_rhsm(op.get("rhsm"))
                 before = None
+                invalid = False     # a read finds content that is not an identifier (documented: the client exits)
                 if kind == "read" and os.path.isfile(sb.idfile) and not os.path.islink(sb.idfile):
                     with open(sb.idfile, "rb") as f:
                         raw = f.read()
-                    try:
-                        uuid.UUID(raw.decode("ascii").strip())
-                        valid = True
-                    except ValueError:
-                        valid = False
-                    if valid:
+                    if file_uuid(raw) is not None:
                         os.utime(sb.idfile, (OLD, OLD))
                         s = os.lstat(sb.idfile)
                         before = (raw, s.st_ino, s.st_mtime_ns)
+                        if padded and raw == id_bytes(idf):
+                            padded_read = True
+                    elif raw:
+                        invalid = True
+                exited = False
                 try:
                     got = U.generate_machine_id(new=(kind == "regen"), destination_file=sb.idfile)
                 except SystemExit as e:
-                    fail("identifier %s exited the client (code %r)" % (kind, e.code), step)
+                    if not invalid:
+                        fail("identifier %s exited the client (code %r)" % (kind, e.code), step)
+                    exited = True
+                except UnicodeDecodeError:
+                    if not invalid:
+                        raise
+                    exited = True
                 finally:
                     set_rhsm(None)
-                if not isinstance(got, str) or got != str(uuid.UUID(got)):
-                    fail("identifier returned is not a canonical UUID: %r" % (got,), step)
-                if kind == "read":
+                if exited:
+                    # nothing was returned: the statement demands nothing (and nothing is established)
+                    labels.add("read:invalid-content->no-identifier-returned")
+                    got = None
+                elif not is_canonical(got):
+                    fail("the identifier returned by %s is not a canonical UUID: %r%s"
+                         % ("a read" if kind == "read" else "a forced regeneration", got,
+                            " (identifier file: %r)" % (before[0],) if before else ""), step)
+                elif invalid:
+                    labels.add("read:invalid-content->canonical-identifier-returned")
+                if exited:
+                    pass
+                elif kind == "read":
                     labels.add("read")
                     if expect_id is not None and got != expect_id:
                         fail("a read returned %s, the identifier of this system is %s (no new one was "
@@ -482,8 +611,9 @@ def check(case):
                             fail("a forced regeneration returned the old identifier %s" % got, step)
                     if reads_before_regen:
                         regen_after_read = True
-                expect_id = got
-                seen_ids.add(got)
+                if not exited:
+                    expect_id = got
+                    seen_ids.add(got)
             elif kind in ("register", "unregister"):
                 was_link = [os.path.islink(p) for p in (sb.reg if kind == "register" else sb.unreg)]
                 if kind == "register":
@@ -527,7 +657,10 @@ def check(case):
         special = n_reg and n_unreg and "names:default" not in labels
         if special:
             labels.add("nt:register+unregister+special-directory-name")
-        nt = bool((n_reg and n_unreg and sb.links) or regen_between_reads or special)
+        if padded_read:
+            # round 7: a read of an identifier file as another tool left it (surrounding white space / another spelling)
+            labels.add("nt:read-of-identifier-file-in-a-foreign-spelling")
+        nt = bool((n_reg and n_unreg and sb.links) or regen_between_reads or special or padded_read)
         if n_reg and n_unreg and sb.links:
             labels.add("nt:register+unregister+symlink")
         if regen_between_reads:
@@ -837,7 +970,8 @@ def _run_ops(sb, case, r, state):
         op = cur["op"]
         wire["n"] += 1
         sent = []
-        m = re.search(r"[?&]insights_id=([^&]*)", url) or re.search(r"/v1/systems/([^/?]+)$", url)
+        # (\Z, not $: an identifier that ends in a line terminator is part of what was sent)
+        m = re.search(r"[?&]insights_id=([^&]*)", url, re.S) or re.search(r"/v1/systems/([^/?]+)\Z", url, re.S)
         if m:
             sent.append(m.group(1))
         create = method == "POST" and url.endswith("/v1/systems")
@@ -931,12 +1065,7 @@ def _run_ops(sb, case, r, state):
                 return None, True
             before = None
             if kind != "regen" and id_before is not None:
-                try:
-                    uuid.UUID(id_before.decode("ascii").strip())
-                    valid = True
-                except ValueError:
-                    valid = False
-                if valid:
+                if file_uuid(id_before) is not None:
                     os.utime(sb.idfile, (OLD, OLD))
                     s = os.lstat(sb.idfile)
                     before = (id_before, s.st_ino, s.st_mtime_ns)
@@ -972,6 +1101,9 @@ def _run_ops(sb, case, r, state):
                     if s is None or (raw, s.st_ino, s.st_mtime_ns) != before:
                         fail("a read rewrote the existing identifier file (content %r -> %r)" % (before[0], raw))
                     labels.add("read:file-untouched")
+                    idf0 = case.get("idfile")
+                    if idf0 and before[0] == id_bytes(idf0) and before[0] != str(uuid.UUID(idf0["hex"])).encode():
+                        labels.add("read:identifier-file-in-a-foreign-spelling")
         elif kind == "c_status":
             ret = client_call(CL.get_registration_status, cfg, conn)
             if legacy:
@@ -1061,12 +1193,8 @@ def _run_ops(sb, case, r, state):
         were_together = together()
         reg0_before = os.path.exists(sb.reg[0])
         id_before = wire["idbytes"] = _read_bytes(sb.idfile)
-        if id_before is not None:
-            try:
-                uuid.UUID(id_before.decode("ascii").strip())
-                wire["valid_before"] = True
-            except ValueError:
-                pass
+        if file_uuid(id_before) is not None:
+            wire["valid_before"] = True
         failed = None
         try:
             cls, skipped = perform(op, id_before)
@@ -1201,8 +1329,7 @@ def check_runs(case):
         labels = set(["mode:legacy" if case.get("legacy") else "mode:platform", "runs:%d" % len(case["runs"])])
         if any(users):
             labels.add("own:" + "".join("u" if o else "r" for o in own))
-        labels.add("id-init:" + (idf["form"] + ("" if idf["form"] == "empty" or is_v4(idf["hex"]) else ":non-v4")
-                                 if idf else "absent"))
+        labels.update(idfile_labels(idf))
         for i, d in enumerate(case["dirs"]):
             if not d.get("present", True):
                 labels.add("dir%d-absent" % i)
@@ -1216,8 +1343,7 @@ def check_runs(case):
                  "nt_cross_run": False, "nt_client_link": False,
                  "id_op_failed": False, "nt_fault_id": False, "nt_fault_markers": False, "nt_no_answer": False,
                  "labels": sorted(labels), "links": [list(l) for l in sb.links]}
-        if idf and idf["form"] != "empty" and is_v4(idf["hex"]):
-            state["expect_id"] = str(uuid.UUID(idf["hex"]))
+        state["expect_id"] = initial_id(idf)
         for r in range(len(case["runs"])):
             state = _in_fresh_process(_run_ops, sb, case, r, state)
         if dir0 and state["expect_id"] is not None:
@@ -1301,6 +1427,36 @@ def _names(draw, p_special=2):
     return {"etc": etc, "dirs": [cur, leg]}
 
 
+# -- the identifier file as it was left behind (round 7): the UUID in one of the spellings the client accepts, in 2
+# cases out of 5 surrounded by white space - a line terminator (LF / CRLF / CR, once or twice), blanks, tabs, form
+# feed, vertical tab after it, more rarely before it -; `history` also draws content that is NOT an identifier in
+# these terms (a UTF-8 byte-order mark in front, white space only), where the documented sys.exit is tolerated
+_WS_POST = ["\n"] * 6 + ["\r\n"] * 4 + ["\r", " ", " ", "\t", "\n\n", "\r\n\r\n", " \n", "\t\n", " \r\n", "  ", "\x0c", "\x0b",
+            "\n ", "\x0c\n"]
+_WS_PRE = [" ", " ", "\t", "\n", "\r\n", "  ", "\x0c", " \t", "\n\n"]
+_ws_free = st.text(alphabet=st.sampled_from(" \t\n\r\x0b\x0c"), min_size=1, max_size=3)
+
+
+@st.composite
+def _idfile(draw, invalid_too):
+    if draw(st.integers(0, 4)) == 0:
+        return None
+    form = draw(st.sampled_from(FORMS[:-1] * 3 + FORMS_R7 * 2 + ["empty"]))
+    idf = {"hex": draw(_hex), "form": form}
+    if form == "empty":
+        if invalid_too and draw(st.integers(0, 3)) == 0:
+            idf["post"] = draw(st.sampled_from(["\n", "\r\n", " ", "\n\n"]))     # white space only: not an identifier
+        return idf
+    w = draw(st.integers(0, 9))
+    if w < 4:
+        idf["post"] = draw(_ws_free if w == 0 else st.sampled_from(_WS_POST))
+    if draw(st.integers(0, 7)) == 0:
+        idf["pre"] = draw(_ws_free if draw(st.integers(0, 3)) == 0 else st.sampled_from(_WS_PRE))
+    if invalid_too and draw(st.integers(0, 19)) == 7:
+        idf["bom"] = True
+    return idf
+
+
 @st.composite
 def _case(draw, max_ops):
     dirs = []
@@ -1311,10 +1467,7 @@ def _case(draw, max_ops):
             d["registered"] = draw(_kind)
             d["unregistered"] = draw(_kind)
         dirs.append(d)
-    idfile = None
-    if dirs[0]["present"] and draw(st.integers(0, 4)) > 0:
-        form = draw(st.sampled_from(FORMS[:-1] * 3 + ["empty"]))
-        idfile = {"hex": draw(_hex), "form": form}
+    idfile = draw(_idfile(True)) if dirs[0]["present"] else None
     id_ops = st.one_of(
         st.builds(lambda r: {"op": "read", "rhsm": r}, _rhsm),
         st.builds(lambda r: {"op": "read", "rhsm": r}, _rhsm),
@@ -1379,6 +1532,31 @@ def first_steps(tier):
     return out
 
 
+ID_FORMS_PRE = ["", " ", "\t", "\n", "\r\n", "\x0c"]
+ID_FORMS_POST = ["", "\n", "\r\n", "\r", " ", "\t", "\n\n", "\r\n\r\n", " \n", "\n ", "\x0c", "\x0b"]
+
+
+def id_forms(tier):
+    """finite part (round 7): every spelling of the identifier x white space before x white space after it (one
+    version-4 and one version-1 UUID), each followed by: read, read with a subscription identity around, forced
+    regeneration, read."""
+    ops = [{"op": "read", "rhsm": None}, {"op": "read", "rhsm": "6f7a2a3e-1111-4222-8333-444455556666"},
+           {"op": "regen", "rhsm": None}, {"op": "read", "rhsm": None}]
+    out = []
+    for hex32 in ("3b1c9a52f0e44d7c9a6e5f4d3c2b1a09", "3b1c9a52f0e411ec9a6e5f4d3c2b1a09"):
+        for form in FORMS[:-1] + FORMS_R7:
+            for pre in ID_FORMS_PRE:
+                for post in ID_FORMS_POST:
+                    idf = {"hex": hex32, "form": form}
+                    if pre:
+                        idf["pre"] = pre
+                    if post:
+                        idf["post"] = post
+                    out.append({"dirs": [{"present": True, "registered": "absent", "unregistered": "absent"},
+                                         {"present": False}], "idfile": idf, "ops": ops})
+    return out
+
+
 # (round 6: "no answer" - unreachable / error / unparsable - is as likely as each of the two plain answers)
 _SRV_PLAT = st.sampled_from(["known"] * 3 + ["unknown"] * 3 + ["conflict", "error", "down", "down", "garbage",
                                                                "gone412"])
@@ -1397,9 +1575,8 @@ def _runs_case(draw, max_runs, max_ops):
             d["registered"] = draw(_kind)
             d["unregistered"] = draw(_kind)
         dirs.append(d)
-    idfile = None
-    if dirs[0]["present"] and draw(st.integers(0, 4)) > 0:
-        idfile = {"hex": draw(_hex), "form": draw(st.sampled_from(FORMS[:-1] * 3 + ["empty"]))}
+    # (valid content only: on invalid content every client-level operation ends in the documented sys.exit)
+    idfile = draw(_idfile(False)) if dirs[0]["present"] else None
     legacy = draw(st.sampled_from([False, False, False, True, True]))
     srv = _SRV_LEG if legacy else _SRV_PLAT
     builders = {
@@ -1452,9 +1629,11 @@ def strat_runs(tier):
 
 SUBS = [
     Sub("history", check, strategy=strat, quick=2000, thorough=8000, workers_quick=4, workers_thorough=16,
-        budget_quick=28, budget_thorough=540),
+        budget_quick=25, budget_thorough=540),
     Sub("client_runs", check_runs, strategy=strat_runs, quick=600, thorough=4000, workers_quick=4,
         workers_thorough=16, budget_quick=30, budget_thorough=540),
+    Sub("id_forms", check, enumerate=id_forms, workers_quick=2, workers_thorough=4, budget_quick=20,
+        budget_thorough=60),
     Sub("first_steps", check, enumerate=first_steps, workers_quick=2, workers_thorough=4, budget_quick=30,
         budget_thorough=120),
 ]
